@@ -193,6 +193,18 @@ def run_perms(case):
                                                f'an unpaired client read a value with permissions {perms:#04x} while a {link} client was reading it')
                     if not any(p[:1] == b'\x0b' for p in b['rx'][n1:]):
                         sim.violation_once('overlap-refused', f'refused:read:authorised-client-during-unpaired-read', f'{[x.hex() for x in b["rx"][n1:]]}')
+                # ---- Read Blob at a non-zero offset from the unpaired client, after the authorised client read the whole (long) value
+                if p2 is not None and link != 'plain' and not rwhy and plain_why and t['kind'] == 'value' and len(cur(t)) > 22:
+                    ask(b, struct.pack('<BH', 0x0A, h))
+                    ask(b, struct.pack('<BHH', 0x0C, h, 22))
+                    off = order.choice([1, 5, 22])
+                    rsp2 = ask(p2, struct.pack('<BHH', 0x0C, h, off))
+                    sim.probe('read_blob_from_unpaired_client_after_authorised_long_read')
+                    val = cur(t)
+                    for p in rsp2:
+                        if p[:1] == b'\x0d' and len(p) > 4 and p[1:] == val[off:off + len(p) - 1]:
+                            sim.violation_once(f'leak:blob-after:{plain_why[0]}', f'disclosed:read_blob:to-unpaired-client-after-authorised-long-read:{plain_why[0]}',
+                                               f'Read Blob at offset {off} returned {len(p) - 1} bytes of a value with permissions {perms:#04x} to a client on a plain link')
                 # ---- range / list reads: must not disclose
                 others = [x['attr'].handle for x in order.sample(ts, min(len(ts), 2))]
                 for op, pdu in (
